@@ -5,6 +5,7 @@ the model's *spec view* (reachable ids R, weakly referenced ids W) as the refere
 Trace line:  <op> | <out ints> | <events> | A0{..} A1{..}|A1- ... | <ghost> [| R0=..;W0=.. ...]
 """
 import re
+from fractions import Fraction
 from collections import Counter, defaultdict
 
 ARENA_RE = re.compile(r"A(\d)(-|\{([^}]*)\})")
@@ -152,6 +153,7 @@ def compare_script(si, sm):
 # Property oracles on the implementation's history
 # ----------------------------------------------------------------------------------------------
 TAGGED = {"node", "leaf", "struct"}
+DEFAULT_PACING = dict(sleep=Fraction(1, 2), min=256, mark=Fraction(1, 10), trace=Fraction(4, 10), keep=Fraction(5, 100), drop=Fraction(2, 10), free=Fraction(3, 10))
 CB_DESTROYING = {"new", "trynew", "maproot", "trymaproot"}
 
 
@@ -189,6 +191,7 @@ def run_oracles(si, sm, viol, cover):
     mutated_since = defaultdict(lambda: True)
     resurrected = defaultdict(set)       # arena -> ids resurrected in the running cycle
     upgraded = defaultdict(set)
+    pac = {}
     n = min(len(si["lines"]), len(sm["lines"]))
     for k in range(n):
         li, lm = si["lines"][k], sm["lines"][k]
@@ -322,6 +325,29 @@ def run_oracles(si, sm, viol, cover):
             cp0, cp1 = int(pre["cp"].split("!")[0]), int(post["cp"].split("!")[0])
             if cp0 != cp1 and not (cp0 == 2 and cp1 == 1):
                 viol("C08", None, "a callback operation changed the phase %d -> %d (%s)" % (cp0, cp1, li.optext), k)
+
+        # ---- C09: work credited never exceeds rho per object of the cycle ------------------------
+        if o[0] == "pacing" and not skipped:
+            fr = lambda t: Fraction(t)
+            pac[int(o[1])] = dict(sleep=fr(o[2]), min=int(o[3]), mark=fr(o[4]), trace=fr(o[5]), keep=fr(o[6]), drop=fr(o[7]), free=fr(o[8]))
+        if o[0] == "begin" and o[2] in ("new", "trynew") and not skipped:
+            pac[int(o[1])] = dict(DEFAULT_PACING)
+        if post is not None and a in pac:
+            P = pac[a]
+            tot, alloc_c, dropped_c, freed_c, marked_c, traced_c, rem_c = [int(x) for x in post["m"].split(",")]
+            rho = max(P["mark"] + P["trace"] + P["keep"], P["drop"] + P["free"], P["mark"] + P["drop"] + P["keep"])
+            credits = marked_c * P["mark"] + traced_c * P["trace"] + rem_c * P["keep"] + dropped_c * P["drop"] + freed_c * P["free"]
+            if min(P["mark"], P["trace"], P["keep"], P["drop"], P["free"]) >= 0 and credits > rho * (tot + freed_c):
+                viol("C09", None, "collector work credited (%s) exceeds rho (%s) per object of this cycle (%d objects): debt is paid without work, cycles need not complete" % (credits, rho, tot + freed_c), k)
+            if post["p"] == "1":
+                objs = all_objs(post)
+                nb = sum(1 for (_, c, _, _) in objs if c == "B")
+                nbt = sum(1 for (_, c, t, _) in objs if c == "B" and t)
+                if traced_c > nb:
+                    viol("C09", None, "trace work credited for %d objects but only %d are traced (black): a re-queued object keeps its trace credit" % (traced_c, nb), k)
+                if traced_c < nbt:
+                    viol("C10", None, "trace credit (%d) is lower than the number of traced objects (%d): a later write barrier underflows the counter" % (traced_c, nbt), k)
+            cover["C09:credit-bound-checks"] += 1
 
         # ---- C10: metrics are truthful ---------------------------------------------------------
         if post is not None and h is not None:
